@@ -29,6 +29,18 @@ pub fn trip(bytes: &[u8], comp: Comp, hash: bool) -> Result<(), Fail> {
 		return Err(Fail::new("op=slpp quirks", format!("double_game_end after .slpp: {}, before: {}", quirk2, quirk0)).with_file("slpp", &p));
 	}
 	let w = rt::slp_write(&g2).expect_ok("slippi::write(after .slpp)").map_err(|f| f.with_file("slpp", &p))?;
+	// second generation: the game read from the archive writes to the identical archive (same compression)
+	if p.len() % 3 == 0 {
+		let p2 = rt::slpp_write(g2, comp).expect_ok("peppi::write(2nd generation)").map_err(|f| f.with_file("slpp", &p))?;
+		let g3 = rt::slpp_read(&p2, false).expect_ok("peppi::read(2nd generation)").map_err(|f| f.with_file("slpp", &p2))?;
+		if g3.hash != hash0 {
+			return Err(Fail::new("op=slpp hash second_generation", format!("hash after two .slpp generations: {:?}, original: {:?}", g3.hash, hash0)).with_file("slpp", &p));
+		}
+		let w3 = rt::slp_write(&g3).expect_ok("slippi::write(after 2 .slpp generations)").map_err(|f| f.with_file("slpp", &p2))?;
+		if w3 != bytes {
+			return Err(Fail::new("op=slpp roundtrip diff second_generation", format!("slp->slpp->slpp->slp ({}) differs from the original", comp.name())).with_file("slpp", &p).with_file("slpp2", &p2));
+		}
+	}
 	if w != bytes {
 		let n = w.len().min(bytes.len());
 		let i = (0..n).find(|&i| w[i] != bytes[i]).unwrap_or(n);
